@@ -222,7 +222,7 @@ def stability(ctx):
     D = universe.DELTA_DICT
     specs_ = [("abc", Cfg(0, b"", 0, 3, 1)), ("aab", Cfg(2, b"", 0, 3, 1)), ("abca", Cfg(2, D, 0, 1, 1)), ("abb", Cfg(2, D, 1, 2, 0)), ("dcd", Cfg(0, D, 1, 1, 1))]
     files = universe.lib_files(specs_, ctx.seed)
-    single = ["V", "D", "F", "Q", "C0", "C1", "C2", "S1", "S3", "r5", "X", "M"]
+    single = ["V", "D", "F", "Q", "C0", "C1", "C2", "S1", "S3", "r5", "X", "M", "G-1", "G1"]
     hists = ["-"] + single + ["%s,%s" % (a, b) for a in single for b in single]
     bad = []
     for (w, c), f in zip(specs_, files):
